@@ -110,8 +110,8 @@ pub fn check(id: &str, tier: Tier) -> i32 {
   let spec_f = Spec { depth: if thorough { 4 } else { 3 }, ..spec.clone() };
   explore(&run, &spec_f, &files, &all_starts, id);
   passes.push(json!({"cells": files.len(), "starts": all_starts.len(), "alphabet": alphabet.len(), "depth": spec_f.depth, "backend": "file", "wall_s": t1.elapsed().as_secs_f64()}));
-  if thorough {
-    // pass 3: configuration grid at depth 4 with the full alphabet
+  {
+    // pass 3: configuration grid with the full alphabet (quick: depth 2, thorough: depth 3)
     let t2 = std::time::Instant::now();
     let mut grid = vec![];
     for fl in Fl::ALL {
@@ -131,15 +131,30 @@ pub fn check(id: &str, tier: Tier) -> i32 {
         }
       }
     }
+    // file arenas whose window starts at offset 4096 of their file, with and without a reserved prefix
+    for fl in Fl::ALL {
+      for reserved in [0u32, 5] {
+        let mut c = Cfg::new(fl, Backend::File, true, 256 + reserved + 8);
+        c.reserved = reserved;
+        c.file_offset = 4096;
+        grid.push(c);
+      }
+    }
     if !diff {
       alphabet = full_alphabet();
       if id == "C10" || id == "C20" {
         alphabet.extend([Op::Disc, Op::SetMin(0), Op::SetMin(64), Op::IncDisc(3)]);
       }
+      if id == "C20" {
+        alphabet.push(Op::Clear);
+      }
     }
-    let spec_g = Spec { alphabet: alphabet.clone(), depth: 3, ..spec.clone() };
+    let gd = if thorough { 3 } else { 2 };
+    let spec_g = Spec { alphabet: alphabet.clone(), depth: gd, ..spec.clone() };
     explore(&run, &spec_g, &grid, &all_starts, id);
-    passes.push(json!({"cells": grid.len(), "starts": all_starts.len(), "alphabet": alphabet.len(), "depth": 3, "wall_s": t2.elapsed().as_secs_f64()}));
+    passes.push(json!({"cells": grid.len(), "starts": all_starts.len(), "alphabet": alphabet.len(), "depth": gd, "kind": "configuration grid (free list x backend x layout x reserved x minimum segment size x maximum alignment x capacity)", "wall_s": t2.elapsed().as_secs_f64()}));
+  }
+  if thorough {
     // pass 4: depth 6 from the fresh arena and depth 5 from the fragmented ones, 12 in-memory cells
     let t3 = std::time::Instant::now();
     let spec_d = Spec { depth: 5, ..spec.clone() };
